@@ -28,12 +28,20 @@ func (P *extPoint) initXY(x, y *compatible.Int, c kyber.Group) {
 }
 
 func (P *extPoint) getXY() (x, y *mod.Int) {
-	P.normalize()
-	return &P.X, &P.Y
+	Q := P.normalized()
+	return &Q.X, &Q.Y
+}
+
+// normalized returns a copy of the point with Z=1. Reading a point (encoding,
+// printing, extracting data) must not write to it: points may be shared
+// between goroutines for reading.
+func (P *extPoint) normalized() *extPoint {
+	Q, _ := P.Clone().(*extPoint) //nolint:errcheck // Clone returns a *extPoint
+	Q.normalize()
+	return Q
 }
 
 func (P *extPoint) String() string {
-	P.normalize()
 	buf, _ := P.MarshalBinary()
 	return hex.EncodeToString(buf)
 }
@@ -43,8 +51,8 @@ func (P *extPoint) MarshalSize() int {
 }
 
 func (P *extPoint) MarshalBinary() ([]byte, error) {
-	P.normalize()
-	return P.c.encodePoint(&P.X, &P.Y), nil
+	Q := P.normalized()
+	return Q.c.encodePoint(&Q.X, &Q.Y), nil
 }
 
 func (P *extPoint) UnmarshalBinary(b []byte) error {
@@ -143,8 +151,8 @@ func (P *extPoint) Pick(rand cipher.Stream) kyber.Point {
 
 // Extract embedded data from a point group element
 func (P *extPoint) Data() ([]byte, error) {
-	P.normalize()
-	return P.c.data(&P.X, &P.Y)
+	Q := P.normalized()
+	return Q.c.data(&Q.X, &Q.Y)
 }
 
 // Add two points using optimized extended coordinate addition formulas.
